@@ -348,8 +348,21 @@ def translate() -> None:
 
 
 def _specs(rng) -> dict:
+    """every shipped serializer (and the harness subclasses of the public base classes), each also in its debug=True mode
+    (error reports then build an `error_info` from the failing input / exception: that code runs only on errors)"""
+    spec = _specs0(rng)
+    if rng.random() < 0.5:
+        spec["debug"] = True
+    inner = spec.get("inner")
+    if inner is not None and rng.random() < 0.5:
+        spec["inner"] = {**inner, "debug": True}
+    return spec
+
+
+def _specs0(rng) -> dict:
     lim = rng.choice([16, 64, 256, 65536])
-    k = rng.choice(["line", "jsonl", "jsonraw", "struct", "ntstruct", "b64", "zlib", "bz2", "autosep", "fixed", "filetoy", "pickle"])
+    k = rng.choice(["line", "jsonl", "jsonraw", "struct", "ntstruct", "b64", "zlib", "bz2", "autosep", "fixed", "filetoy", "pickle",
+                    "filepeek", "fileahead"])
     if k == "line":
         return {"k": "line", "newline": rng.choice(["LF", "CR", "CRLF"]), "keep_end": rng.random() < 0.3,
                 "encoding": rng.choice(["ascii", "utf-8"]), "limit": lim}
@@ -365,15 +378,19 @@ def _specs(rng) -> dict:
                         {"k": "line", "newline": "LF", "limit": 65536, "encoding": "utf-8"}, {"k": "struct", "format": "!IH"}])
     if k == "b64":
         return {"k": "b64", "inner": inner, "alphabet": rng.choice(["standard", "urlsafe"]), "checksum": rng.random() < 0.5,
-                "separator": rng.choice(["0d0a", "0a", "7c"]), "limit": lim}
+                "separator": rng.choice(["0d0a", "0a", "7c", "3c7c3e", "0d0a2e"]), "limit": lim}
     if k in ("zlib", "bz2"):
         return {"k": k, "inner": inner}
     if k == "autosep":
-        return {"k": "autosep", "sep": rng.choice(["0a", "0d0a", "616162"]), "limit": lim, "check": True}
+        return {"k": "autosep", "sep": rng.choice(["0a", "0d0a", "616162", "3c7c3e", "61626364"]), "limit": lim, "check": True}
     if k == "fixed":
         return {"k": "fixed", "size": rng.choice([1, 3, 8])}
-    if k == "filetoy":
-        return {"k": "filetoy", "limit": max(lim, 32)}
+    if k in sers.FILE_TOYS:
+        spec = {"k": k, "limit": max(lim, 32)}
+        e = rng.choice(sers.EXPECTED_KEYS)
+        if e != "toy":
+            spec["expected"] = e
+        return spec
     return {"k": "pickle"}
 
 
@@ -446,7 +463,62 @@ def corpus() -> list[dict]:
     b64 = {"k": "b64", "inner": js, "alphabet": "urlsafe", "checksum": True, "separator": "0d0a", "limit": 65536}
     for mode in ("oneshot", "copy", "buffered"):
         out.append({"spec": b64, "mode": mode, "data": b"!!!!\r\nQUJD\r\n====\r\n".hex(), "cuts": [3], "hint": 8, "origin": "random"})
+    out += _debug_corpus()
     return out + _injection_cases()
+
+
+def _debug_corpus() -> list[dict]:
+    """debug=True: every error branch of every serializer builds its `error_info` — structurally extreme JSON inside the
+    limit (nesting beyond the recursion limit, integer literals beyond the int/str conversion limit, each followed by a valid
+    document), bare and wrapped (base64, zlib, bz2), plus one malformed input per remaining serializer, all entry points"""
+    import base64
+    import bz2
+    import zlib
+    out = []
+    ok = b'{"ok":1}\n'
+    extremes = [b"[" * 5000 + b"]" * 5000, b'{"a":' * 2000 + b"1" + b"}" * 2000, b"9" * 5000, b"[" + b"9" * 4301 + b"]", b"-" * 3000]
+    for use_lines in (True, False):
+        spec = {"k": "json", "use_lines": use_lines, "limit": 65536, "debug": True}
+        for doc in extremes:
+            out.append({"spec": spec, "mode": "oneshot", "data": doc.hex(), "cuts": [4096], "hint": 64, "origin": "extreme"})
+            for cuts in ([65536], [1000]):
+                out.append({"spec": spec, "mode": "copy", "data": (doc + b"\n" + ok).hex(), "cuts": cuts, "hint": 64, "origin": "extreme"})
+        out.append({"spec": spec, "mode": "copy", "data": b'"\xff"\n{"a":}\n[1,,2]\n'.hex(), "cuts": [2], "hint": 64, "origin": "random"})
+    jd = {"k": "json", "use_lines": True, "limit": 65536, "debug": True}
+    for doc in extremes[:4]:
+        for wrap in ("b64", "zlib", "bz2"):
+            if wrap == "b64":
+                spec = {"k": "b64", "inner": jd, "alphabet": "urlsafe", "checksum": False, "separator": "0d0a", "limit": 65536, "debug": True}
+                data, tail = base64.urlsafe_b64encode(doc), b"\r\n"
+            else:
+                spec = {"k": wrap, "inner": jd, "debug": True}
+                data, tail = (zlib.compress(doc) if wrap == "zlib" else bz2.compress(doc)), b""
+            out.append({"spec": spec, "mode": "oneshot", "data": data.hex(), "cuts": [4096], "hint": 64, "origin": "extreme"})
+            for mode in ("copy", "buffered"):
+                out.append({"spec": spec, "mode": mode, "data": (data + tail).hex(), "cuts": [4096, 7], "hint": 64, "origin": "extreme"})
+    others = [
+        ({"k": "line", "newline": "CRLF", "keep_end": True, "encoding": "utf-8", "limit": 64, "debug": True}, b"ab\xff\r\nok\r\n\xc3\r\n"),
+        ({"k": "line", "newline": "LF", "keep_end": False, "encoding": "ascii", "limit": 8, "debug": True}, b"abcdefghijklmnop\nok\n\xe9\n"),
+        ({"k": "struct", "format": "!?f", "debug": True}, b"\x02\xff\xff\xff\xff\x00"),
+        ({"k": "ntstruct", "debug": True}, b"\x00\x00\x00\x01\x00\x02\xff\xfeab\x00\x00" * 2),
+        ({"k": "autosep", "sep": "3c7c3e", "limit": 16, "check": True, "debug": True}, b"\xffab<|>ok<|>" + b"x" * 40 + b"<|>"),
+        ({"k": "fixed", "size": 3, "debug": True}, b"\xffabok1\xff"),
+        ({"k": "pickle", "debug": True}, b"\x80\x04nonsense"),
+        ({"k": "b64", "inner": {"k": "pickle", "debug": True}, "alphabet": "standard", "checksum": True, "separator": "3c7c3e", "limit": 64,
+          "debug": True}, b"QUJ<|>QUJD<|>!!!!<|" + b"A" * 80 + b"<|>"),
+        ({"k": "zlib", "inner": {"k": "line", "newline": "LF", "limit": 65536, "encoding": "utf-8", "debug": True}, "debug": True},
+         zlib.compress(b"\xff\xfe") + b"garbage" + zlib.compress(b"ok")),
+        ({"k": "bz2", "inner": {"k": "pickle", "debug": True}, "debug": True}, bz2.compress(b"\x80\x04nonsense") + b"BZh9garbage"),
+    ]
+    for k in sers.FILE_TOYS:
+        for e in ("toy", "exception", "tuple", "deser"):
+            others.append(({"k": k, "limit": 32, "expected": e, "debug": True}, b"\x02ab\xff\x01c\xc9\x00" + bytes([200]) + b"q" * 60))
+    for spec, data in others:
+        modes = ["oneshot"] + ([] if spec["k"] == "pickle" else ["copy"] + (["buffered"] if sers.is_buffered(spec) else []))
+        for mode in modes:
+            for cuts in ([4096], [1], [3, 5]):
+                out.append({"spec": spec, "mode": mode, "data": data.hex(), "cuts": cuts, "hint": 8, "origin": "random"})
+    return out
 
 
 def generate(rng, tier: str, boost: int):
